@@ -150,6 +150,8 @@ class LDAWrapper(LinearSolver):
         idia = self.diagonal_idx
 
         dtype = np.result_type(A, rhs)
+        if dtype.kind not in 'fc':  # Integer (or boolean) data would truncate the solution
+            dtype = np.result_type(dtype, float)
         if rhs.ndim == 1:
             rhs_loc = np.zeros((rhs.size, 1), dtype=dtype)
             rhs_loc[:, 0] = rhs
